@@ -233,6 +233,112 @@ def make(cfg):
     return Monitor(cfg)
 
 
+class TimeoutScenario:
+    """While the gateway's version is unknown every decoded message is followed by one version query - also when the
+    application's wait for the next message times out while the reaction to that message is being written (the
+    write in flight is abandoned; whatever else the handling owes is still owed)."""
+
+    horizon = 3000
+
+    def __init__(self, cfg: dict, loop) -> None:
+        import asyncio
+
+        from aiomysensors.gateway import Gateway
+
+        from ..harness import AsyncScriptTransport, drive
+
+        self.asyncio = asyncio
+        self.cfg = cfg
+        self.loop = loop
+        t = self.t = AsyncScriptTransport(loop)
+        gw = self.gw = Gateway(t, Config(metric=True))
+        agen = gw.listen()
+        for line in ("1;255;0;0;17;2.0", "1;3;0;0;3;", "1;3;1;0;2;v"):
+            t.lines.append(line)
+            drive(agen.__anext__())
+        self.base = len(t.log)
+        t.sync = False
+        self.script = list(cfg["lines"])
+        self.pos = 0
+        self.budget = cfg.get("timeouts", 1)
+        self.timed_out = False
+        self.step_task = None
+        self.nontrivial = False
+        self.listener = loop.create_task(self._listen())
+
+    async def _listen(self):
+        from aiomysensors.exceptions import AIOMySensorsError
+
+        agen = self.gw.listen()
+        try:
+            for _ in self.script:
+                self.step_task = self.loop.create_task(agen.__anext__())
+                try:
+                    await self.step_task
+                except AIOMySensorsError:
+                    await agen.aclose()
+                    agen = self.gw.listen()
+                except self.asyncio.CancelledError:
+                    if not self.timed_out:
+                        raise
+                    self.timed_out = False
+                    await agen.aclose()
+                    agen = self.gw.listen()
+        finally:
+            self.step_task = None
+            await agen.aclose()
+
+    def enabled(self) -> list:
+        self.t.pending_writes[:] = [e for e in self.t.pending_writes if not e[0].done()]
+        evs = []
+        if self.pos < len(self.script) and self.t.pending_read is not None:
+            evs.append("line")
+        for i in range(len(self.t.pending_writes)):
+            evs.append(f"write:{i}")
+        if self.budget > 0 and self.t.pending_writes and self.step_task is not None and not self.step_task.done():
+            evs.append("timeout")
+        return evs
+
+    def fire(self, label: str) -> None:
+        if label == "line":
+            self.t.deliver(self.script[self.pos])
+            self.pos += 1
+        elif label == "timeout":
+            self.budget -= 1
+            self.nontrivial = True
+            self.timed_out = True
+            self.step_task.cancel()
+        else:
+            self.t.complete_write(int(label.split(":")[1]))
+
+    def finished(self) -> bool:
+        return self.pos >= len(self.script) and self.listener.done() and self.loop.ready_count() == 0
+
+    def verdict(self, hang: bool) -> list:
+        viols = []
+
+        def bad(k, what):
+            viols.append((f"C06|timeout-{k}|3/2", f"version unknown, lines {self.script}: {what}", None))
+
+        if hang:
+            bad("hang", "no enabled event while the listener is unfinished")
+            return viols
+        if self.listener.cancelled() or self.listener.exception() is not None:
+            bad("listener-failed", f"the listener ended with {self.listener!r}")
+        log = self.t.log[self.base:]
+        queries = [w for w in log if w == "0;255;3;0;2;\n"]
+        if len(queries) != self.pos:
+            bad("version-query-count", f"{self.pos} messages were decoded while the version was unknown, {len(queries)} version queries were issued; writes issued in order: {log}")
+        return viols
+
+    def observation(self):
+        return {"log": list(self.t.log[self.base:])}
+
+
+def make_scenario(cfg, loop):
+    return TimeoutScenario(cfg, loop)
+
+
 def stored_type_job(job):
     """A value of EVERY value type number is reported, stored, and asked for again (also with the gateway's version
     becoming known only in between): the request is answered with the stored value."""
@@ -296,15 +402,18 @@ def run(ctx: core.Ctx) -> core.Report:
     gres = bfs.search_many(ctx, MOD, grid, 1)
     tjobs = [(v, list(range(i, min(i + 8, 61)))) for v in versions for i in range(0, 61, 8)]
     tres = core.pmap(stored_type_job, tjobs, ctx.workers, chunksize=1)
+    from .. import explore
+
+    xres = explore.explore(ctx, MOD, [{"lines": ls, "timeouts": 1} for ls in (["1;255;3;0;6;"], ["255;255;3;0;3;", "1;3;2;0;2;"], ["1;3;2;0;2;", "1;255;3;0;1;", "1;3;1;0;2;w"])], 1 if ctx.quick else 3)
     unfreeze()
-    viols = res["violations"] + gres["violations"] + [core.Violation(k, w, rep) for r in tres for k, w, rep in r[1]]
+    viols = res["violations"] + gres["violations"] + [core.Violation(k, w, rep) for r in tres for k, w, rep in r[1]] + xres["violations"]
     cov = {
         "states": res["states"] + gres["states"],
         "transitions": res["transitions"] + gres["transitions"],
         "traces_validated_against_impl": res["transitions"] + gres["transitions"],
         "exhaustive": False,
         "distinct_nontrivial_transitions": res["nontrivial_transitions"] + gres["nontrivial_transitions"],
-        "rule": "all histories to the stated depth over the alphabet; non-trivial = a step for which the reaction table expects at least one write; plus a depth-1 grid over time zones x instants x versions x metric, plus a depth-1 sweep of every type number 0-60 of presentation/set/req (known and unknown node), internal -1..40 and stream -1..8 in two base states per version, plus set + req of every value type 0-60 per version (and with the version becoming known in between)",
+        "rule": "all histories to the stated depth over the alphabet; non-trivial = a step for which the reaction table expects at least one write; plus a depth-1 grid over time zones x instants x versions x metric, plus a depth-1 sweep of every type number 0-60 of presentation/set/req (known and unknown node), internal -1..40 and stream -1..8 in two base states per version, plus set + req of every value type 0-60 per version (and with the version becoming known in between), plus three scenarios (E2, <= 1/3 early firings) in which the wait for the next message times out while a reaction is being written",
         "bounds": {"depth": depth, "per_cfg": res["per_cfg"], "grid_cfgs": len(grid)},
         "samples": ctx.pick(res["samples"], 3),
     }
@@ -322,6 +431,10 @@ def run(ctx: core.Ctx) -> core.Report:
 
 def replay(data: dict) -> dict:
     try:
+        if "choices" in data:
+            from .. import explore
+
+            return explore.replay(MOD, data)
         return bfs.replay_history(MOD, data)
     finally:
         unfreeze()
